@@ -81,9 +81,12 @@ def register(reg):
     TOP = "snapshots[%s - 1]" % K_
     BLOCK_END = "min(n0s + self._period, g.N)"
     TOT = "WADV(g.bl, %s, %s)" % (S_, T_)
+    # (the relation for the top entry is stated on its own: after a push the quantified part then only
+    # concerns entries the push did not touch)
     CHAIN = ("g.bs == n0s and g.bl == %s - n0s and len(g.P) == %s and implies(%s >= 1, g.P[0] == 0) and "
-             "forall(1, %s, lambda i: g.P[i] == g.P[i - 1] + WADV(snapshots[i] - snapshots[i - 1], %s - i + 1, %s))"
-             % (BLOCK_END, K_, K_, K_, S_, T_))
+             "forall(1, %s - 1, lambda i: g.P[i] == g.P[i - 1] + WADV(snapshots[i] - snapshots[i - 1], %s - i + 1, %s)) "
+             "and implies(%s >= 2, g.P[%s - 1] == g.P[%s - 2] + WADV(snapshots[%s - 1] - snapshots[%s - 2], %s - %s + 2, %s))"
+             % (BLOCK_END, K_, K_, K_, S_, T_, K_, K_, K_, K_, K_, S_, K_, T_))
     POT_BLOCK = [
         # (at a block's very first iteration the ghost still describes the previous block: its first
         # action, the Copy of the periodic checkpoint, starts the accounting)
